@@ -17,7 +17,7 @@ def onalarm(sig, frm):
         print('steps', M.nsteps, 'decisions', len(M.decisions), 'solver calls', M.stats.get('solver_calls'), 'solver_s', M.stats.get('solver_s'))
     os._exit(3)
 signal.signal(signal.SIGALRM, onalarm); signal.alarm(int(limit))
-opts = dict(relax_int=job.relax_int, max_steps=job.max_steps); opts.update(job.opts)
+opts = dict(relax_int=job.relax_int, max_steps=job.max_steps); opts.update(job.opts); opts['fork_sites'] = True
 if os.environ.get('FIX'): opts['fixed_inputs'] = os.environ['FIX'].split(',')
 R = irsym.explore(ll, opts=opts, workers=1, exe=None, max_paths=int(os.environ.get('MAXP', '50')), log=print)
 print({k: (dict(v) if hasattr(v, 'items') else v) for k, v in R.items() if k not in ('called', 'samples')})
